@@ -2,6 +2,7 @@ package c08
 
 import (
 	"bytes"
+	"fmt"
 	"image"
 	"image/color"
 	"image/jpeg"
@@ -840,7 +841,28 @@ func genCase(t *rapid.T) Case {
 		body = seed
 		dims := []int{0, 1, 8, 16, 255, 256, 4096, 8192, 11585, 16384, 32768, 65535}
 		hdr := rapid.IntRange(0, 9).Draw(t, "hdr")
-		if rapid.IntRange(0, 4).Draw(t, "manyscans") == 0 {
+		if rapid.IntRange(0, 3).Draw(t, "multiscan") == 0 {
+			// a complete interleaved scan, then the same SOS + entropy-coded
+			// segment again and again, under each frame type
+			c.Origin = "jpeg-multi-scan"
+			hdr = -1
+			if rapid.IntRange(0, 2).Draw(t, "tiny") == 0 {
+				body = tinyFrame(t)
+			}
+			sof := rapid.SampledFrom([]int{0xc0, 0xc1, 0xc1, 0xc1, 0xc2}).Draw(t, "sof")
+			k := rapid.SampledFrom([]int{1, 2, 2, 5, 40}).Draw(t, "scans")
+			body = repeatScans(editJPEGHeader(body, []jpegEdit{{jeSOF, 0, sof}}), k)
+			for len(body) > maxBody && k > 2 {
+				k /= 2
+				body = repeatScans(editJPEGHeader(seed, []jpegEdit{{jeSOF, 0, sof}}), k)
+			}
+			kind := "single-scan"
+			if k > 1 {
+				kind = "multi-scan"
+			}
+			c.Tags = []string{fmt.Sprintf("jpeg/sof%d-%s", sof-0xc0, kind)}
+			c.ProgScans = -1 // no mutation, plain chain, drained (see below)
+		} else if rapid.IntRange(0, 4).Draw(t, "manyscans") == 0 {
 			// progressive, one component, many scans which each skip every
 			// block with EOB-run tokens: almost no input per pass
 			c.Origin = "jpeg-prog-scans"
@@ -911,7 +933,7 @@ func genCase(t *rapid.T) Case {
 		if c.Origin == "jpeg-header" && wrap < 4 && rapid.Bool().Draw(t, "plain") {
 			wrap = 5
 		}
-		if c.ProgScans > 0 {
+		if c.ProgScans != 0 {
 			wrap, p = 5, oNull()
 		}
 		switch wrap {
@@ -1154,8 +1176,11 @@ func genCase(t *rapid.T) Case {
 	if strings.HasPrefix(c.Origin, "ccitt-bomb") && c.Mode != 0 && rapid.IntRange(0, 3).Draw(t, "drainbomb") != 0 {
 		c.Mode = 0
 	}
-	if c.ProgScans > 0 || strings.HasSuffix(c.Origin, "-over-bomb") || c.Origin == "jbig2-halftone" {
+	if c.ProgScans != 0 || strings.HasSuffix(c.Origin, "-over-bomb") || c.Origin == "jbig2-halftone" {
 		c.Mode = 0
+	}
+	if c.ProgScans < 0 {
+		c.ProgScans = 0 // was only a marker inside the generator
 	}
 	if c.Mode == 1 {
 		c.Partial = rapid.SampledFrom([]int{1, 2, 100, 4096, 70000, 1 << 20}).Draw(t, "partial")
@@ -1723,4 +1748,23 @@ func (h halftoneSpec) build() (body []byte, tags []string, expectOut int) {
 	}
 	body = append(body, jbig2Segment(2, typ, []byte{1}, reg)...)
 	return body, tags, ((w + 7) / 8) * hh
+}
+
+// repeatScans returns the JPEG with everything from its first scan header up
+// to the final EOI marker (SOS, entropy-coded data, any later segments)
+// written k times.
+func repeatScans(b []byte, k int) []byte {
+	_, sos := jpegSegments(b)
+	end := len(b)
+	if end >= 2 && b[end-2] == 0xff && b[end-1] == 0xd9 {
+		end -= 2
+	}
+	if sos < 0 || sos >= end {
+		return b
+	}
+	out := append([]byte{}, b[:sos]...)
+	for i := 0; i < k; i++ {
+		out = append(out, b[sos:end]...)
+	}
+	return append(out, 0xff, 0xd9)
 }
